@@ -11,6 +11,7 @@ CONSTANTS
   Deviations = {"OrphanFronts", "TcpFrontLastWins"}
   Deterministic = FALSE
   Preamble <- NoPreamble
+  Traffic = FALSE
   Emit = FALSE
 CONSTRAINT Track
 INVARIANTS TypeOK P_C08_ExactlyOnce P_C08_BaseCount
